@@ -51,29 +51,30 @@ section
 variable {σ : Type} (ops : ItOps σ)
 
 /-- `for ; it.Valid(); it.Next() { if isdeleted {continue}; collect; i++; if i == count {break} }`
-(`count ≤ 0` never matches: unlimited). `i` = number collected so far. -/
-def scanLoop (dir count : Nat) : Nat → σ → Nat → Option (List Bytes)
+(`count ≤ 0` never matches: unlimited). `i` = number collected so far.  The entries are
+returned as `(key, value)`; `encodeItems` applies `collector.collect` afterwards. -/
+def scanLoop (count : Nat) : Nat → σ → Nat → Option (List Entry)
   | 0, _, _ => none
   | fuel + 1, s, i =>
     if ops.valid s then
-      if isDeleted (ops.value s) then scanLoop dir count fuel (ops.next s).1 i
+      if isDeleted (ops.value s) then scanLoop count fuel (ops.next s).1 i
       else
-        let item := collect dir (ops.key s) (ops.value s)
+        let item : Entry := (ops.key s, ops.value s)
         if i + 1 == count then some [item]
-        else (scanLoop dir count fuel (ops.next s).1 (i + 1)).map (item :: ·)
+        else (scanLoop count fuel (ops.next s).1 (i + 1)).map (item :: ·)
     else some []
 
 /-- `iteratorScan` (from first / from last): `it.Rewind()` then the loop. -/
-def scanFromEnd (fuel : Nat) (it : σ) (count dir : Nat) : Option (List Bytes) :=
-  scanLoop ops dir count fuel (ops.rewind it).1 0
+def scanFromEnd (fuel : Nat) (it : σ) (count : Nat) : Option (List Entry) :=
+  scanLoop ops count fuel (ops.rewind it).1 0
 
 /-- `IteratorScan`: seek `key`; nothing if invalid; skip `key` itself if present; loop. -/
-def iteratorScan (fuel : Nat) (it : σ) (key : Bytes) (count dir : Nat) : Option (List Bytes) :=
+def iteratorScan (fuel : Nat) (it : σ) (key : Bytes) (count : Nat) : Option (List Entry) :=
   let s1 := (ops.seek it key).1
   if !ops.valid s1 then some []
   else
     let s2 := if ops.key s1 == key then (ops.next s1).1 else s1
-    scanLoop ops dir count fuel s2 0
+    scanLoop ops count fuel s2 0
 
 /-- `for it.Valid() && isdeleted(it.Value()) { it.Next() }`. -/
 def skipDeleted : Nat → σ → Option σ
@@ -87,13 +88,20 @@ def nextKeyValue (fuel : Nat) (it : σ) (key : Bytes) : Option (List Bytes) :=
   | none => none
   | some s => if ops.valid s then some [ops.key s, ops.value s] else some []
 
-/-- `ListHelper.List`; `mk reverse` = `db.Iterator(prefix, nil, reverse)`. -/
+/-- the entries of one page: the two scanning branches of `ListHelper.List`
+(`key` empty: from the first / last entry; otherwise continue after `key`).
+`mk reverse` = `db.Iterator(prefix, nil, reverse)`. -/
+def listEntries (mk : Bool → σ) (fuel : Nat) (key : Bytes) (count dir : Nat) : Option (List Entry) :=
+  if key.isEmpty then scanFromEnd ops fuel (mk (!isASC dir)) count
+  else iteratorScan ops fuel (mk (!isASC dir)) key count
+
+/-- `collector.collect` on every entry of a page. -/
+def encodeItems (dir : Nat) (es : List Entry) : List Bytes := es.map (fun e => collect dir e.1 e.2)
+
+/-- `ListHelper.List`. -/
 def list (mk : Bool → σ) (fuel : Nat) (key : Bytes) (count dir : Nat) : Option (List Bytes) :=
   if !key.isEmpty && count == 1 && dir == ListSeek then nextKeyValue ops fuel (mk true) key
-  else if key.isEmpty then
-    if isASC dir then scanFromEnd ops fuel (mk false) count dir
-    else scanFromEnd ops fuel (mk true) count dir
-  else iteratorScan ops fuel (mk (!isASC dir)) key count dir
+  else (listEntries ops mk fuel key count dir).map (encodeItems dir)
 
 def countLoop : Nat → σ → Option Nat
   | 0, _ => none
@@ -117,6 +125,10 @@ def iterOps : ItOps Iter :=
 /-- `NewListHelper(db).List(prefix, key, count, direction)` on the map `m`. -/
 def listPlain (m : Map) (pfx key : Bytes) (count dir : Nat) : Option (List Bytes) :=
   list iterOps (fun rev => Iter.mk' m pfx none rev) (m.length + 2) key count dir
+
+/-- the entries of one page on a single database. -/
+def listEntriesPlain (m : Map) (pfx key : Bytes) (count dir : Nat) : Option (List Entry) :=
+  listEntries iterOps (fun rev => Iter.mk' m pfx none rev) (m.length + 2) key count dir
 
 def countPlain (m : Map) (pfx : Bytes) : Option Nat :=
   prefixCount iterOps (m.length + 2) (Iter.mk' m pfx none true)
@@ -236,7 +248,25 @@ def layersSize (layers : List Map) : Nat := (layers.map List.length).sum
 def listMerged (layers : List Map) (pfx key : Bytes) (count dir : Nat) : Option (List Bytes) :=
   list mergedOps (fun rev => mergedIter layers pfx none rev) (layersSize layers + 2) key count dir
 
+def listEntriesMerged (layers : List Map) (pfx key : Bytes) (count dir : Nat) : Option (List Entry) :=
+  listEntries mergedOps (fun rev => mergedIter layers pfx none rev) (layersSize layers + 2) key count dir
+
 def countMerged (layers : List Map) (pfx : Bytes) : Option Nat :=
   prefixCount mergedOps (layersSize layers + 2) (mergedIter layers pfx none true)
+
+/-! ### the paging protocol -/
+
+/-- a client listing a prefix page by page: the first request has an empty key, every further
+request continues after the key of the last entry returned; stops at the first empty page.
+`none`: ran out of `fuel` requests. -/
+def pagedAll (page : Bytes → Option (List Entry)) : Nat → Bytes → Option (List Entry)
+  | 0, _ => none
+  | fuel + 1, key =>
+    match page key with
+    | none => none
+    | some p =>
+      match p.getLast? with
+      | none => some []
+      | some x => (pagedAll page fuel x.1).map (p ++ ·)
 
 end C07
